@@ -18,6 +18,9 @@
 //	        small ones are cross-checked against the unreduced search (`admits0`); tampered histories
 //	        (response payload swapped between callers) must be rejected.
 //	route   oracle only: many concurrent callers on two adapters, hostile answer scripts.
+//
+// Histories and storms rotate over the dispatch paths of TarsInvoke (no client filter, legacy single
+// filter, middleware chain, pre+post filters; all pass-through).
 package main
 
 import (
@@ -139,8 +142,9 @@ func scenarios(o *common.Opts) []*callsim.Scenario {
 			}
 			servers = append(servers, callsim.ServerSpec{Kind: "normal", Rules: rules})
 		}
+		// every fourth history each goes through the single client filter / the middleware chain / pre+post filters
 		add(&callsim.Scenario{Name: fmt.Sprintf("hist-%d", h), Class: fmt.Sprintf("hist-conc%d-srv%d", conc, nServers), Client: healthy,
-			MsgID0: msgids[h%len(msgids)], Servers: servers, Calls: calls, Record: true, GapMs: 150})
+			MsgID0: msgids[h%len(msgids)], Servers: servers, Calls: calls, Record: true, GapMs: 150, Filter: callsim.FilterPaths[(h+1)%4]})
 	}
 
 	// ---- oracle-only routing storms ----
@@ -174,7 +178,7 @@ func scenarios(o *common.Opts) []*callsim.Scenario {
 			mid = i32(-int32(n))
 		}
 		add(&callsim.Scenario{Name: fmt.Sprintf("storm-%d-%d", n, k), Class: fmt.Sprintf("storm-%d", n), Client: healthy, MsgID0: mid,
-			Servers: []callsim.ServerSpec{mk(), mk()}, Calls: calls, GapMs: 50, CapMs: 30000})
+			Servers: []callsim.ServerSpec{mk(), mk()}, Calls: calls, GapMs: 50, CapMs: 30000, Filter: callsim.FilterPaths[(k+1)%4]})
 	}
 	return scs
 }
@@ -382,6 +386,14 @@ func main() {
 			continue
 		}
 		oracle(res, sc, r)
+		if sc.Filter != "" {
+			if r.FilterHit == 0 && len(r.Calls) > 0 {
+				res.Fatal(o.Out, fmt.Errorf("scenario %s: the installed client filter (%s) was never invoked", sc.Name, sc.Filter))
+			}
+			res.Histogram["filter-path:"+sc.Filter]++
+		} else {
+			res.Histogram["filter-path:direct"]++
+		}
 		okN, errN := 0, 0
 		for _, c := range r.Calls {
 			if c.Outcome == "ok" {
